@@ -18,7 +18,14 @@ import re
 import socket as real_socket
 
 from common import vlib
-from common.vlib import g_bool, g_list, g_opt, g_z
+from common.vlib import g_bool, g_list, g_opt
+
+
+def g_z(n):
+    """Z literal; big numbers in hexadecimal (Coq parses long decimal literals in super-linear time)."""
+    n = int(n)
+    body = hex(abs(n)) if abs(n) >= 10**15 else str(abs(n))
+    return f"(-{body})" if n < 0 else body
 
 # ----------------------------------------------------------------------------- ty AST
 # ("String", opt, choices|None, tr|None)   tr = "lower" | ("oracle", id, pyfunc)
